@@ -3,5 +3,6 @@ EXTENDS Signature, Json, SequencesExt
 WithExp(r) == [row |-> r, exp |-> Expected(r)]
 WithExpP(r) == [row |-> r, exp |-> PairExpected(r)]
 WithExpB(r) == [row |-> r, exp |-> BurstExpected(r)]
-ASSUME ndJsonSerialize("rows.ndjson", SetToSeq({WithExp(r) : r \in Rows}) \o SetToSeq({WithExpP(r) : r \in PairRows}) \o SetToSeq({WithExpB(r) : r \in BurstRows}))
+WithExpL(r) == [row |-> r, exp |-> PlainExpected(r)]
+ASSUME ndJsonSerialize("rows.ndjson", SetToSeq({WithExp(r) : r \in Rows}) \o SetToSeq({WithExpP(r) : r \in PairRows}) \o SetToSeq({WithExpB(r) : r \in BurstRows}) \o SetToSeq({WithExpL(r) : r \in PlainRows}))
 =============================================================================
